@@ -265,6 +265,39 @@ for _n in (33, 65):
                       "implies(returns(), b[0] in ((2, 3) if len(b) == 33 else (4,)))"],
              gen=_gen_sec)
 
+def _gen_sec_big(rng, tier):
+    """SEC strings whose coordinates are >= p but congruent to a real curve point (the field has 2**32 + 977 such x)"""
+    from buidl.pecc import S256Point
+    Pf = _PF
+    for x in range(1, 40):
+        if x + Pf >= 2**256:
+            break
+        y2 = (x**3 + 7) % Pf
+        y = pow(y2, (Pf + 1) // 4, Pf)
+        if y * y % Pf != y2:
+            continue
+        yield {"b": bytes([2 + (y & 1)]) + (x + Pf).to_bytes(32, "big")}
+        yield {"b": b"\x04" + (x + Pf).to_bytes(32, "big") + y.to_bytes(32, "big")}
+        if y + Pf < 2**256:
+            yield {"b": b"\x04" + x.to_bytes(32, "big") + (y + Pf).to_bytes(32, "big")}
+    for x in (Pf, Pf + 1, 2**256 - 1):
+        yield {"b": b"\x02" + x.to_bytes(32, "big")}
+        yield {"b": b"\x04" + x.to_bytes(32, "big") + (1).to_bytes(32, "big")}
+    yield from _gen_sec(rng, tier)
+
+
+# a decoded point has canonical coordinates (below p) that satisfy the curve equation: strings carrying x or y >= p do not
+# encode a curve point and must be refused (otherwise the decoder is not injective: x and x + p would name "different" points)
+for _n in (33, 65):
+    contract("verif.harness.ecc.parse_coords#len%d" % _n, props=("C03",), nl_uf=True,
+             params={"b": "bytes:%d" % _n}, requires=["len(b) == %d" % _n],
+             ensures=["implies(returns(), 0 <= result[0] < %d)" % _PF,
+                      "implies(returns(), 0 <= result[1] < %d)" % _PF,
+                      "implies(returns(), result[0] == int.from_bytes(b[1:33], 'big'))",
+                      "implies(int.from_bytes(b[1:33], 'big') >= %d, raises(ValueError))" % _PF,
+                      "implies(returns(), (result[1] * result[1] - result[0] ** 3 - 7) %% %d == 0)" % _PF],
+             gen=_gen_sec_big)
+
 contract("buidl.pecc.S256Point.parse#badlen", props=("C03",),
          params={"cls": ("const_cls", "buidl.pecc.S256Point"), "binary": ("bytes", 0, 70)}, args=["cls", "binary"],
          requires=["len(binary) not in (32, 33, 65)"], ensures=["raises(ValueError)"],
